@@ -84,9 +84,18 @@ def make_env(P, servertype, commtimeout, linger=30.0, pool=(2, 40)):
     @P.server.behavior(instance_mode="session")
     @P.server.expose
     class Sess(object):
+        def __init__(self):
+            # a resource tracked from the constructor of the per-connection instance belongs to the connection the instance is created for
+            with world.lock:
+                world.rid += 1
+                self.ctor_res = Res(world.rid)
+            ctx.track_resource(self.ctor_res)
+
         def touch(self):
             e = world.entry(ctx.client._vserial)
             e["session"] = weakref.ref(self)
+            if self.ctor_res not in e["tracked"]:
+                e["tracked"].append(self.ctor_res)
             return ctx.client._vserial
 
     fx = fixture.Fixture(servertype=servertype, COMMTIMEOUT=commtimeout, THREADPOOL_SIZE=pool[1], THREADPOOL_SIZE_MIN=pool[0], ITER_STREAMING=True, ITER_STREAM_LINGER=linger)
@@ -99,17 +108,27 @@ def hook_count(fx, serial):
     return len([e for e in fx.daemon.evlog.of("disconnect") if e[2] == serial])
 
 
+_flip = __import__("itertools").count()
+
+
 def open_victim(fx, ser, ntrack, nuntrack, use_session, rec, nstreams=0):
     c = wire.RawClient(fx.location, timeout=8.0)
     m = c.handshake("svc", ser)
     if m.type != wire.CONNECTOK:
         raise RuntimeError("handshake refused")
-    r = c.invoke("svc", "setup", (ntrack, nuntrack), {}, ser)
-    serial = ser.loads(r.data)
-    if use_session:
+    def touch():
         r = c.invoke("sess", "touch", (), {}, ser)
         if r.flags & wire.F_EXC:
             raise RuntimeError("touch failed %r" % ser.loads(r.data))
+    # every other session connection creates its instance with its very FIRST request (the serving thread's context still describes
+    # whatever it served before)
+    session_first = use_session and next(_flip) % 2 == 0
+    if session_first:
+        touch()
+    r = c.invoke("svc", "setup", (ntrack, nuntrack), {}, ser)
+    serial = ser.loads(r.data)
+    if use_session and not session_first:
+        touch()
     for _ in range(nstreams):
         # an item stream that is still open when the connection ends is one more thing the daemon has to clean up
         r = c.invoke("svc", "gen", (5,), {}, ser)
@@ -379,6 +398,8 @@ def run_churn(fx, world, rec, r, sername, nthreads, rounds, plans=None):
     quiet = fx.wait_until(lambda: fx.live_connection_count() == 0, 10.0)
     serials = [x for t in ths for x in t.serials]
     fx.wait_until(lambda: all(hook_count(fx, sn) >= 1 for sn, _, _ in serials), 10.0)
+    # the hook runs just before the connection object is closed: give that last step its bounded time too
+    fx.wait_until(lambda: all(world.entry(sn)["conn"] is None or sock_closed(world.entry(sn)["conn"]) for sn, _, _ in serials), 10.0)
     time.sleep(0.01)
     for t in ths:
         for i in range(len(t.plan)):
